@@ -55,3 +55,24 @@ let () = register "schemahist" (function
       | _ -> failwith "bad step" in
     L [A "trace"; L (go M.sinit ops [])]
   | _ -> failwith "bad shist case")
+
+(* TIE-H: results projected on the HTTP answer *)
+let shttp_err = function
+  | M.EBase e -> Histrun.http_err e
+  | M.ESchemaNotFound -> "404:NOT_FOUND" | M.ESchemaNotSpecified -> "400:SCHEMA_NOT_SPECIFIED"
+  | M.ESchemaValidation -> "400:VALIDATION" | M.ESchemaAlreadyExists -> "409:SCHEMA_ALREADY_EXISTS"
+let sresult_sx_http = function
+  | M.SOk (_, t, hit) -> L [A "ok"; Histrun.optz t; Histrun.b01 hit]
+  | M.SErr e -> L [A "err"; S (shttp_err e)]
+let () = register "schemahisth" (function
+  | L [A "shisth"; A mode; L ops] ->
+    let m = if mode = "strict" then M.Strict else M.Audit in
+    let rec go ss ops acc = match ops with
+      | [] -> List.rev acc
+      | L [now; i] :: rest ->
+        (match M.sstep rv rm all_on m (zarg now) ss (sinput_of i) with
+         | M.SSPanic -> List.rev (L [L [A "panic"]] :: acc)
+         | M.SSR (ss', r) -> go ss' rest (L [sresult_sx_http r; sstate_sx ss'; extra_sx ss'] :: acc))
+      | _ -> failwith "bad step" in
+    L [A "trace"; L (go M.sinit ops [])]
+  | _ -> failwith "bad shisth case")
